@@ -122,7 +122,8 @@ class Chunks(Harness):
         else:
             chunks = list(itertools.islice(reader.read_chunks(x["k"]), n + 3))    # a reader that stops making progress shows as extra chunks
             parsed = [c.get_data() for c in chunks]
-            res = dict(data=[ctx.lst(c.data.raw()) for c in chunks], counts=[len(d) for d in parsed])
+            res = dict(data=[ctx.lst(c.data.raw()) for c in chunks], counts=[len(d) for d in parsed],
+                       counted=[int(c.count_entries()) for c in chunks])      # what bnp.count_entries sums up
         # parsed content, concatenated over the chunks
         if skel["fmt"] in F.SEQ_FORMATS:
             res["name"] = [r for d in parsed for r in ctx.lst(d.name.raw())]
@@ -172,6 +173,8 @@ class Chunks(Harness):
             flat = [b for d in out["data"] for b in d]
             if sum(out["counts"]) != n or len(flat) != len(exp) or any(c == 0 for c in out["counts"]):
                 return False
+            if "counted" in out and out["counted"] != out["counts"]:
+                return False                     # count_entries of a chunk is the number of entries the chunk parses to
             conj = [TI(g) == (e.t if hasattr(e, "t") else e) for g, e in zip(flat, exp)]
         pe = self._parsed_expected(skel, lambda nm: x[nm].t, z3=True)
         for key, rows in list(pe.items()) + ([("joined:" + k, v) for k, v in pe.items()] if "joined" in out else []):
@@ -221,6 +224,9 @@ class Chunks(Harness):
         if sum(cout["counts"]) != n or flat != exp:
             return (f"{skel['fmt']} file {text!r} read with min_chunk_size={k} ({skel['mode']} mode): chunks hold {cout['counts']} entries "
                     f"(file has {n}); concatenated chunk bytes {bytes(flat)!r}, expected {bytes(exp)!r}")
+        if "counted" in cout and cout["counted"] != cout["counts"]:
+            return (f"{skel['fmt']} file {text!r} read with min_chunk_size={k} ({skel['mode']} mode): count_entries() of the chunks = {cout['counted']}, "
+                    f"the chunks hold {cout['counts']} entries")
         pe = self._parsed_expected(skel, lambda nm: cx[nm])
         for key, rows in pe.items():
             got = cout[key] if key in cout else cout["cols"][key]
